@@ -249,7 +249,19 @@ pub fn run(ctx: &mut Ctx) {
         cs.push("D decode".into());
         ctx.count("corner_kind", &kind);
         cases.push(cs);
-        metas.push((originals, orig));
+        metas.push((originals.clone(), orig));
+        // … and with EVERY shard of the code given (all 65536 of them on a corner): nothing is missing, nothing is restored
+        if k + r >= 65535 && (k * 7 + r) % 3 == (ctx.seed % 3) as usize || k.min(r) == 1 {
+            let mut cs = Case::new(&format!("corner-all-shards-{}-{}-{}", kind, k, r));
+            cs.with_model = false;
+            cs.push(cfg.new_line("D"));
+            for j in 0..r { cs.push(format!("D addr {} {}", j, to_hex(&recovery[j]))); }
+            for i in 0..k { cs.push(format!("D addo {} {}", i, to_hex(&originals[i]))); }
+            cs.push("D decode".into());
+            ctx.count("corner_kind", "all-shards-given");
+            cases.push(cs);
+            metas.push((originals, (0..k).collect()));
+        }
     }
     let runs = ctx.run_cases(&cases);
     for ((case, run), (originals, given)) in cases.iter().zip(runs.iter()).zip(metas.iter()) {
